@@ -21,7 +21,12 @@ RULE = ("paragraphs = ordered (name, value) lists, values = first line x all con
         "paragraphs (default parser setting: a whitespace-only line separates paragraphs like an empty one): one state "
         "per document, transitions = traces = parser executions (6 input forms x {Deb822, iter_paragraphs, Dsc, Changes} "
         "for one paragraph, 6 forms x iter_paragraphs otherwise), non-trivial when a leading or separating line is "
-        "whitespace-only or there is more than one of them")
+        "whitespace-only or there is more than one of them; other routes = for the documents of a sub-space (bounds: routes) the "
+        "same behaviour reached another way - how the paragraph object came into being x how it is dumped, every other "
+        "entry point / option value that reads the text back x every kind of input, how the result is read, armor x "
+        "comment lines - each of which must give exactly what the default route gives: one state per document, "
+        "transitions = traces = executions of a route; the blank-line documents are additionally read through the option "
+        "values and classes that must not change the reading")
 BUDGET = {"quick": 240, "thorough": 3000}
 
 
@@ -46,6 +51,33 @@ def bounds(tier):
                                          % (len(blank_pars(0)), len(blank_pars(0)) ** 2),
                             "configurations": "one paragraph: 6 input forms x {Deb822, iter_paragraphs, Dsc, Changes}; "
                                               "several: 6 input forms x iter_paragraphs; default parser settings"},
+            "routes": {"documents": "one field A x every first line x every continuation-line list of length 0..%d; two fields x all 36 ordered pairs "
+                                    "of six value shapes%s; all ordered pairs over a %d-paragraph pool (separator "
+                                    "1 blank line), pairs over 3 with 2 blank lines, triples over 2; the %d field-name sweep "
+                                    "paragraphs (reduced route set: objects %s, plain text, readers x %s, no armor x comments): %d documents"
+                                    % (1 if tier == "quick" else 2, "" if tier == "quick" else " and every 11th two-field paragraph of the quick grid",
+                                       4 if tier == "quick" else 10, len([p for p in sweep_pars() if p[0][0] != "A"]),
+                                       list(ROUTE_OBJECTS_LIGHT), list(ROUTE_FORMS_REDUCED), len(route_docs(tier, 0))),
+                       "objects": ROUTE_OBJECTS, "dumps": ROUTE_DUMPS,
+                       "dumps_per_object": "all for %s; %s for the others" % (list(ROUTE_OBJECTS_ALL_DUMPS), list(ROUTE_DUMPS_CORE)),
+                       "readers": "Deb822(...) and Deb822.iter_paragraphs(...) with every parameter spelled out as keyword / "
+                                  "positionally, use_apt_pkg=True, shared_storage=True, strict = {} / {ws: True} / {ws: False}, "
+                                  "fields = all names (also reversed with an absent name), each single name and each all-but-one "
+                                  "(where every paragraph keeps a field), encoding='iso-8859-1' on Latin-1 bytes; cls(...) and "
+                                  "cls.iter_paragraphs(...) for cls in %s; paragraph by paragraph from one iterator (Deb822, "
+                                  "Dsc), Deb822(it) then iter_paragraphs(it)" % ROUTE_CLASSES,
+                       "input_kinds": list(STANDARD_FORMS) + ROUTE_FORMS_EXTRA,
+                       "input_kinds_per_reader": "plain text: all readers x the six forms, core readers %s x the further kinds; "
+                                                 "comments at all boundaries and sweep paragraphs: all readers x %s"
+                                                 % (list(ROUTE_CORE), list(ROUTE_FORMS_REDUCED)),
+                       "reads": ROUTE_READS,
+                       "armor": "6 forms x {Deb822, Dsc, Changes, Sources, BuildInfo} x {iter_paragraphs, strict ws False, keywords, "
+                                "dump of the result}; split_gpg_and_payload / gpg_stripped_paragraph on the line-wise forms; "
+                                "armor x {comments at all payload boundaries, at each single one, one before the armor} x 6 forms "
+                                "x {Deb822, Dsc, Changes} x {constructor, iter_paragraphs}",
+                       "blank_line_documents": "forms str (+ BytesIO without leading lines) x iter_paragraphs with strict {ws: True} "
+                                               "positionally, fields = all names, Release / Changes iter_paragraphs; when every "
+                                               "blank line is empty also strict {ws: False}, Packages / Sources iter_paragraphs"},
             "long_lines": {"physical_line_lengths": long_lengths(tier), "fills": [f for f, _m in LONG_FILLS],
                            "value_layouts": ([l for l, _m in LONG_LAYOUTS] if tier != "quick" else
                                              "shapes x %r for fills ascii and utf8-bytes at lengths < 16384 (utf8-chars: 2 "
@@ -62,7 +94,7 @@ def bounds(tier):
 
 def assumptions():
     return ["values are assigned with an already trimmed first line; continuation lines are compared verbatim",
-            "comment lines are lines starting with '#' in column 0", "clearsign armor: BEGIN PGP SIGNED MESSAGE, "
+            "comment lines are lines starting with '#' in column 0 (the inserted line is %r)" % COMMENT, "clearsign armor: BEGIN PGP SIGNED MESSAGE, "
             "0, 1 or 2 Hash armor headers, blank line, payload, blank line, signature block",
             "sweep: the swept value characters are printable, non-blank characters only - control characters, white "
             "space and the characters str.splitlines cuts at (\\x0b \\x0c \\x1c-\\x1e \\x85 U+2028 U+2029) are not "
@@ -72,6 +104,18 @@ def assumptions():
             "tabs only is a paragraph separator exactly like an empty line (Policy 5.1, Debian bug 715558), and any number "
             "of such lines before the first paragraph or between two paragraphs is skipped; the unchanged library reads "
             "Deb822(' \\n\\t\\nA: b\\n') as {'A': 'b'} in every input form, and Dsc / Changes likewise",
+            "other routes: a route is included when the library documents it as a way to do the same thing (parameters of "
+            "Deb822 / iter_paragraphs / dump, sub-classes for field names they do not treat specially, mapping methods, "
+            "copy); every route is compared with the expectation of the default route, not with another route's output; "
+            "apt_pkg is not installed, so use_apt_pkg=True is the documented fall-back to the internal parser (its warning "
+            "is ignored); fields= lists under which a paragraph would lose all its fields are left out (iter_paragraphs "
+            "stops at an empty paragraph); encoding='iso-8859-1' only for documents that are Latin-1 encodable",
+            "other routes, left out: Dsc / Changes / Sources / BuildInfo reading a multi-paragraph document in which a "
+            "comment line stands alone between two blank lines (comments at all boundaries x separator of 2 blank lines): "
+            "these classes look for clearsign armor in the raw lines before comments are dropped, take the lone comment for "
+            "a paragraph, and iteration ends there - Dsc.iter_paragraphs('A:\\n\\n#cm\\n\\nA:\\n') yields one paragraph "
+            "where Deb822.iter_paragraphs yields two.  The statement's multi-paragraph clause is about "
+            "Deb822.iter_paragraphs; whether it binds the armor-scanning classes is doubtful, so the case is not demanded",
             "long lines: the statement puts no bound on the length of a line; lengths are those of the physical line "
             "'Name: first line' resp. ' continuation' without its newline (8190..8193 bracket a cut after 8192 units "
             "whether or not the newline is counted); 'bytes' fills make the UTF-8 encoded line exactly L bytes long "
@@ -259,15 +303,19 @@ def armor(text, headers="Hash: SHA512\n"):
             "\n-----BEGIN PGP SIGNATURE-----\n\niQabc\n=xyz\n-----END PGP SIGNATURE-----\n")
 
 
+# the comment line looks like a field once its '#' is not honoured: a reader that lets it through shows an extra field
+COMMENT = "#cm: x"
+
+
 def with_comments(text, where):
     ls = text.split("\n")[:-1]
     out = []
     for i, l in enumerate(ls):
         if where == "all" or where == i:
-            out.append("#cm")
+            out.append(COMMENT)
         out.append(l)
     if where == "all" or where == len(ls):
-        out.append("#cm")
+        out.append(COMMENT)
     return "\n".join(out) + "\n"
 
 
@@ -362,13 +410,33 @@ def blank_pars(seed):
     return [[("A", v)], [("A", v + "\n" + c)], [("x1", "a b"), ("Long-Name", v + "\n .\n" + c)]]
 
 
+def blank_route_forms(lead):
+    return ("str",) if lead else ("str", "bytesio")
+
+
+def blank_routes(M, all_empty, names):
+    D = M.Deb822
+    out = [("iter-strict-ws-true", lambda x: D.iter_paragraphs(x, None, False, False, "utf-8", {WS: True})),
+           ("iter-fields-all", lambda x: D.iter_paragraphs(x, fields=list(names), strict={})),
+           ("Release-iter", lambda x: M.Release.iter_paragraphs(x)),
+           ("Changes-iter", lambda x: M.Changes.iter_paragraphs(x))]
+    if all_empty:
+        out += [("iter-strict-ws-false", lambda x: D.iter_paragraphs(x, strict={WS: False})),
+                ("Packages-iter", lambda x: M.Packages.iter_paragraphs(x)),
+                ("Sources-iter", lambda x: M.Sources.iter_paragraphs(x, use_apt_pkg=False))]
+    return out
+
+
 def check_blank(lead, pars, seps):
     """lead: list of blank lines before the first paragraph; seps: one list of blank lines per paragraph boundary
     -> (violations, n executions)"""
+    import warnings
+    from debian import deb822 as M
     from debian.deb822 import Deb822, Dsc, Changes
     texts = [build(p) for p in pars]
     if any(t is None for t in texts):
         return [("deb822/valid-value-rejected", "accepted", "ValueError")], 0
+    all_empty = not any(l for x in [lead] + list(seps) for l in x)
     t = "".join(l + "\n" for l in lead) + texts[0]
     for sep, tx in zip(seps, texts[1:]):
         t += "".join(l + "\n" for l in sep) + tx
@@ -384,6 +452,20 @@ def check_blank(lead, pars, seps):
             gp = want
         if gp != want:
             bad.append(("deb822/blank-lines/iter/%s" % fn, want, "%r from %r" % (gp, t)))
+        if fn in blank_route_forms(lead):
+            # the other routes to the same reading: option values that spell out the default, fields= naming every
+            # field, other classes; and - when every blank line is empty - the setting under which only empty lines
+            # separate (also the default of Packages / Sources)
+            for rn, f in blank_routes(M, all_empty, [k for p in pars for k, _v in p]):
+                n += 1
+                try:
+                    with warnings.catch_warnings():
+                        warnings.simplefilter("ignore")
+                        gr = [list(p.items()) for p in f(mk())]
+                except Exception as e:
+                    gr = "%s: %s" % (type(e).__name__, e)
+                if gr != want:
+                    bad.append(("deb822/blank-lines/route/%s/%s" % (rn, fn), want, "%r from %r" % (gr, t)))
         if len(pars) > 1:
             continue
         for cls in (Deb822, Dsc, Changes):
@@ -419,6 +501,532 @@ def check_multi(pars, sep):
             if gp != want:
                 bad.append(("deb822/multi/%s/%s" % (vn, fn), want, "%r from %r" % (gp, tt)))
     return bad, n
+
+
+# ------------------------------------------------------------------------------------------------ other routes
+# The same behaviour reached another way: how the paragraph object came into being, how it is dumped, which public
+# entry point / option values read the text back, how the result is read.  Every route must agree with what the
+# default route (d[k] = v; d.dump(); Deb822(text) / Deb822.iter_paragraphs(text); items()) is checked to give.
+ROUTE_CLASSES = ["Packages", "Sources", "BuildInfo", "Release", "PdiffIndex", "Removals", "Dsc", "Changes"]
+ROUTE_OBJECTS = ["setitem", "dict", "dict-keyword", "ordered-dict", "deb822dict", "from-deb822", "copy-method", "copy.copy",
+                 "copy.deepcopy", "update-pairs", "update-mapping", "setdefault", "emptied-and-refilled", "overwritten",
+                 "after-rejected-value", "parsed", "parsed-bytes", "parsed-copy", "parsed-reassigned", "latin-1-object"] + \
+                ["%s-dict" % c for c in ROUTE_CLASSES] + ["%s-parsed" % c for c in ROUTE_CLASSES]
+ROUTE_DUMPS = ["dump()", "dump(None)", "second-dump", "str", "__unicode__", "bytes", "dump-fd-binary", "dump-fd-binary-keywords",
+               "dump-fd-binary-encoding", "dump-fd-binary-latin-1", "dump-fd-text", "dump-fd-text-positional",
+               "dump-real-file-binary", "dump-real-file-text", "wrapper-dump()", "wrapper-dump-fd-binary", "wrapper-dump-fd-text"]
+ROUTE_READS = ["subscript", "keys-values", "get", "get_as_string", "dict()", "len-contains", "equals-built", "pop-each"]
+ROUTE_FORMS_EXTRA = ["iterator", "generator-bytes", "tuple", "bytes-lines-nl", "bytes-lines-nonl", "real-file-text",
+                     "real-file-binary"]
+WS = "whitespace-separates-paragraphs"
+GPG_SCANNING = ("Dsc", "Changes", "Sources", "BuildInfo")     # classes that look for armor in the raw lines first
+
+
+def route_object(name, par, text):
+    """the paragraph `par` as an object that came into being the way `name` says"""
+    import collections
+    import copy
+    from debian import deb822 as M
+
+    def filled():
+        d = M.Deb822()
+        for k, v in par:
+            d[k] = v
+        return d
+    if name == "setitem":
+        return filled()
+    if name == "dict":
+        return M.Deb822(dict(par))
+    if name == "dict-keyword":
+        return M.Deb822(sequence=dict(par), fields=None, encoding="utf-8", strict=None)
+    if name == "ordered-dict":
+        return M.Deb822(collections.OrderedDict(par))
+    if name == "deb822dict":
+        return M.Deb822(M.Deb822Dict(list(par)))
+    if name == "from-deb822":
+        return M.Deb822(filled())
+    if name == "copy-method":
+        return filled().copy()
+    if name == "copy.copy":
+        return copy.copy(filled())
+    if name == "copy.deepcopy":
+        return copy.deepcopy(filled())
+    if name == "update-pairs":
+        d = M.Deb822()
+        d.update(list(par))
+        return d
+    if name == "update-mapping":
+        d = M.Deb822()
+        d.update(dict(par))
+        return d
+    if name == "setdefault":
+        d = M.Deb822()
+        for k, v in par:
+            d.setdefault(k, v)
+            d.setdefault(k, "other")
+        return d
+    if name == "emptied-and-refilled":
+        d = filled()
+        d.dump()
+        for k, _v in par:
+            del d[k]
+        d.dump()
+        for k, v in par:
+            d[k] = v
+        return d
+    if name == "overwritten":
+        d = M.Deb822()
+        for k, _v in par:
+            d[k] = "zz\n zz"
+        d.dump()
+        for k, v in par:
+            d[k] = v
+        return d
+    if name == "after-rejected-value":
+        d = M.Deb822()
+        for k, v in par:
+            for wrong in ("zz\n", "zz\n\n zz", "zz\nzz"):
+                try:
+                    d[k] = wrong
+                except ValueError:
+                    pass
+            d[k] = v
+        return d
+    if name == "parsed":
+        return M.Deb822(text)
+    if name == "parsed-bytes":
+        return M.Deb822(text.encode("utf-8"))
+    if name == "parsed-copy":
+        return M.Deb822(text).copy()
+    if name == "parsed-reassigned":
+        d = M.Deb822(text)
+        for k, v in par:
+            d[k] = v
+        return d
+    if name == "latin-1-object":
+        return M.Deb822(dict(par), encoding="iso-8859-1")
+    cname, _, how = name.partition("-")
+    cls = getattr(M, cname)
+    return cls(dict(par)) if how == "dict" else cls(text)
+
+
+def route_dump(name, d, tmpdir, enc):
+    """the text of paragraph object `d` obtained the way `name` says (enc = the encoding the object was made with)"""
+    import os
+    from debian import deb822 as M
+    if name == "dump()":
+        return d.dump()
+    if name == "dump(None)":
+        return d.dump(None)
+    if name == "second-dump":
+        d.dump()
+        return d.dump()
+    if name == "str":
+        return str(d)
+    if name == "__unicode__":
+        return d.__unicode__()
+    if name == "bytes":
+        return bytes(d).decode(enc)
+    if name in ("dump-fd-binary", "dump-fd-binary-keywords", "dump-fd-binary-encoding", "dump-fd-binary-latin-1",
+                "wrapper-dump-fd-binary"):
+        fd = io.BytesIO()
+        if name == "dump-fd-binary":
+            r = d.dump(fd)
+        elif name == "dump-fd-binary-keywords":
+            r = d.dump(fd=fd, encoding=None, text_mode=False)
+        elif name == "dump-fd-binary-encoding":
+            r, enc = d.dump(fd, encoding="utf-8"), "utf-8"
+        elif name == "dump-fd-binary-latin-1":
+            r, enc = d.dump(fd, "iso-8859-1"), "iso-8859-1"
+        else:
+            r = M.RestrictedWrapper(d).dump(fd)
+        return fd.getvalue().decode(enc) if r is None else "returned %r" % (r,)
+    if name in ("dump-fd-text", "dump-fd-text-positional", "wrapper-dump-fd-text"):
+        fd = io.StringIO()
+        if name == "dump-fd-text":
+            r = d.dump(fd, text_mode=True)
+        elif name == "dump-fd-text-positional":
+            r = d.dump(fd, None, True)
+        else:
+            r = M.RestrictedWrapper(d).dump(fd, text_mode=True)
+        return fd.getvalue() if r is None else "returned %r" % (r,)
+    if name == "dump-real-file-binary":
+        path = os.path.join(tmpdir, "dump.bin")
+        with open(path, "wb") as f:
+            d.dump(f)
+        with open(path, "rb") as f:
+            return f.read().decode(enc)
+    if name == "dump-real-file-text":
+        path = os.path.join(tmpdir, "dump.txt")
+        with open(path, "w", encoding="utf-8", newline="") as f:
+            d.dump(f, text_mode=True)
+        with open(path, "rb") as f:
+            return f.read().decode("utf-8")
+    if name == "wrapper-dump()":
+        return M.RestrictedWrapper(d).dump()
+    raise AssertionError(name)
+
+
+def route_read(name, d, built):
+    """the (name, value) list of paragraph object `d` read the way `name` says"""
+    if name == "subscript":
+        return [(k, d[k]) for k in d]
+    if name == "keys-values":
+        return list(zip(d.keys(), d.values()))
+    if name == "get":
+        return [(k, d.get(k, "absent")) for k in d.keys()]
+    if name == "get_as_string":
+        return [(k, d.get_as_string(k)) for k in d]
+    if name == "dict()":
+        return list(dict(d).items())
+    if name == "len-contains":
+        ks = list(d)
+        return [(k, d[k]) for k in ks if k in d] if len(d) == len(ks) else "len() = %d, %d names" % (len(d), len(ks))
+    if name == "equals-built":
+        return list(d.items()) if (d == built and built == d) else "== is False for %r and %r" % (d, built)
+    if name == "pop-each":
+        c = d.copy()
+        return [(k, c.pop(k)) for k in list(c)] + [(k, "left behind") for k in c]
+    raise AssertionError(name)
+
+
+def route_forms(text, tmpdir, tag, opened):
+    """the six input forms and further documented kinds of 'an object that returns a line each time'"""
+    import os
+    b = text.encode("utf-8")
+    path = os.path.join(tmpdir, "in-%s.txt" % tag)
+    with open(path, "wb") as f:
+        f.write(b)
+
+    def real(mode):
+        f = open(path, "r", encoding="utf-8", newline="") if mode == "t" else open(path, "rb")
+        opened.append(f)
+        return f
+    nonl = text.split("\n")[:-1] if text.endswith("\n") else text.split("\n")
+    return forms(text) + [
+        ("iterator", lambda: iter(text.splitlines(True))),
+        ("generator-bytes", lambda: (l for l in b.splitlines(True))),
+        ("tuple", lambda: tuple(text.splitlines(True))),
+        ("bytes-lines-nl", lambda: b.splitlines(True)),
+        ("bytes-lines-nonl", lambda: [l.encode("utf-8") for l in nonl]),
+        ("real-file-text", lambda: real("t")),
+        ("real-file-binary", lambda: real("b"))]
+
+
+def route_field_lists(pars):
+    """fields= arguments under which every paragraph keeps at least one field -> [(label, list)]"""
+    names = []
+    for p in pars:
+        for k, _v in p:
+            if k not in names:
+                names.append(k)
+    out = [("all", list(names)), ("all-reversed-plus-absent", ["Absent"] + list(reversed(names)))]
+    for nm in names:
+        if all(any(k == nm for k, _v in p) for p in pars):
+            out.append(("one", [nm]))
+        rest = [x for x in names if x != nm]
+        if rest and all(any(k in rest for k, _v in p) for p in pars):
+            out.append(("all-but-one", rest))
+    return out
+
+
+def route_parsers(pars, one_shot):
+    """-> [(route, f(make_input) -> list of paragraphs as (name, value) lists, expected list)] for a document"""
+    from debian import deb822 as M
+    want = [[(k, v) for k, v in p] for p in pars]
+    D = M.Deb822
+
+    def items(ps):
+        return [list(p.items()) for p in ps]
+    out = [("ctor-keywords", lambda mk: items([D(sequence=mk(), fields=None, _parsed=None, encoding="utf-8", strict=None)]), want[:1]),
+           ("iter-keywords", lambda mk: items(D.iter_paragraphs(sequence=mk(), fields=None, use_apt_pkg=False,
+                                                                shared_storage=False, encoding="utf-8", strict=None)), want),
+           ("iter-use-apt-pkg", lambda mk: items(D.iter_paragraphs(mk(), use_apt_pkg=True)), want),
+           ("iter-shared-storage", lambda mk: items(D.iter_paragraphs(mk(), shared_storage=True)), want),
+           ("iter-positional", lambda mk: items(D.iter_paragraphs(mk(), None, False, False, "utf-8", None)), want)]
+    for sn, st in (("strict-empty", {}), ("strict-ws-true", {WS: True}), ("strict-ws-false", {WS: False})):
+        out.append(("ctor-%s" % sn, lambda mk, st=st: items([D(mk(), strict=dict(st))]), want[:1]))
+        out.append(("iter-%s" % sn, lambda mk, st=st: items(D.iter_paragraphs(mk(), strict=dict(st))), want))
+    for fl, fields in route_field_lists(pars):
+        exp = [[(k, v) for k, v in p if k in fields] for p in want]
+        out.append(("ctor-fields-%s" % fl, lambda mk, fields=fields: items([D(mk(), fields=list(fields))]), exp[:1]))
+        out.append(("iter-fields-%s" % fl, lambda mk, fields=fields: items(D.iter_paragraphs(mk(), fields=list(fields))), exp))
+        if fl == "all":
+            out.append(("ctor-fields-positional-%s" % fl, lambda mk, fields=fields: items([D(mk(), list(fields))]), exp[:1]))
+            out.append(("iter-fields-positional-%s" % fl, lambda mk, fields=fields: items(D.iter_paragraphs(mk(), list(fields))), exp))
+    for cname in ROUTE_CLASSES:
+        cls = getattr(M, cname)
+        out.append(("%s-ctor" % cname, lambda mk, cls=cls: items([cls(mk())]), want[:1]))
+        out.append(("%s-iter" % cname, lambda mk, cls=cls: items(cls.iter_paragraphs(mk())), want))
+        if cname in ("Packages", "Sources"):      # they override iter_paragraphs (asks for apt_pkg; other strict default)
+            allf = route_field_lists(pars)[0][1]
+            for fl, fields in route_field_lists(pars):
+                exp = [[(k, v) for k, v in p if k in fields] for p in want]
+                out.append(("%s-iter-fields-%s" % (cname, fl),
+                            lambda mk, cls=cls, fields=fields: items(cls.iter_paragraphs(mk(), fields=list(fields))), exp))
+            out.append(("%s-iter-positional" % cname,
+                        lambda mk, cls=cls: items(cls.iter_paragraphs(mk(), list(allf), False, False, "utf-8", None)), want))
+            out.append(("%s-iter-no-apt-pkg" % cname, lambda mk, cls=cls: items(cls.iter_paragraphs(mk(), use_apt_pkg=False)), want))
+    for cname in ("Dsc", "Packages"):
+        out.append(("%s-ctor-keywords" % cname,
+                    lambda mk, cls=getattr(M, cname): items([cls(sequence=mk(), fields=None, encoding="utf-8", strict=None)]), want[:1]))
+    if one_shot:
+        def by_hand(mk, cls=D):
+            src = mk()
+            it = src if hasattr(src, "read") else iter(src)
+            got = []
+            while len(got) <= len(want):
+                p = cls(it)
+                if not p:
+                    break
+                got.append(p)
+            return items(got)
+
+        def ctor_then_iter(mk):
+            src = mk()
+            it = src if hasattr(src, "read") else iter(src)
+            first = D(it)
+            return items([first] + list(D.iter_paragraphs(it)))
+        out.append(("paragraph-by-paragraph", by_hand, want))
+        out.append(("Dsc-paragraph-by-paragraph", lambda mk: by_hand(mk, M.Dsc), want))
+        out.append(("ctor-then-iter", ctor_then_iter, want))
+    return out
+
+
+def latin1_ok(pars):
+    try:
+        "".join(k + v for p in pars for k, v in p).encode("iso-8859-1")
+        return True
+    except UnicodeEncodeError:
+        return False
+
+
+STANDARD_FORMS = ("str", "bytes", "lines_nl", "lines_nonl", "textio", "bytesio")
+ROUTE_CORE = ("ctor-keywords", "iter-keywords", "ctor-strict-ws-false", "iter-strict-ws-false", "iter-fields-all",
+              "ctor-fields-one", "Packages-iter", "Sources-iter", "Dsc-ctor", "Dsc-iter", "Release-iter",
+              "paragraph-by-paragraph", "Dsc-paragraph-by-paragraph", "ctor-then-iter")
+
+
+def route_is_core(rn):
+    return rn in ROUTE_CORE
+
+
+ROUTE_DUMPS_CORE = ("dump()", "str", "bytes", "dump-fd-binary", "dump-fd-text")
+ROUTE_OBJECTS_ALL_DUMPS = ("setitem", "parsed", "copy-method", "Dsc-dict", "Release-parsed", "latin-1-object")
+ROUTE_OBJECTS_LIGHT = ("setitem", "dict", "copy-method", "parsed", "Packages-dict", "Dsc-parsed")
+ROUTE_FORMS_REDUCED = ("str", "bytesio", "lines_nonl", "generator-bytes")
+
+
+def check_routes(pars, sep, armors=None, light=False):
+    """every other route for one document -> (violations, n executions).  light: the reading routes over four input
+    kinds, plain text only, and no armor x comment product (used for the one-character sweep paragraphs)"""
+    import shutil
+    import tempfile
+    import warnings
+    tmpdir = tempfile.mkdtemp(prefix="c02-routes-")
+    opened = []
+    try:
+        with warnings.catch_warnings():
+            warnings.simplefilter("ignore")
+            return _check_routes(pars, sep, armors, tmpdir, opened, light)
+    finally:
+        for f in opened:
+            f.close()
+        shutil.rmtree(tmpdir, ignore_errors=True)
+
+
+def _check_routes(pars, sep, armors, tmpdir, opened, light):
+    from debian import deb822 as M
+    texts = [build(p) for p in pars]
+    if any(t is None for t in texts):
+        return [("deb822/valid-value-rejected", "accepted", "ValueError")], 0
+    want = [[(k, v) for k, v in p] for p in pars]
+    bad = []
+    n = 0
+    l1 = latin1_ok(pars)
+    # (1) how the object came into being x how it is dumped
+    for par, text, w in zip(pars, texts, want):
+        for on in ROUTE_OBJECTS:
+            if light and on not in ROUTE_OBJECTS_LIGHT:
+                continue
+            enc = "iso-8859-1" if on == "latin-1-object" else "utf-8"
+            if on == "latin-1-object" and not l1:
+                continue
+            n += 1
+            try:
+                d = route_object(on, par, text)
+                got = list(d.items())
+            except Exception as e:
+                bad.append(("deb822/route/object/%s/raises" % on, w, "%s: %s" % (type(e).__name__, e)))
+                continue
+            if got != w:
+                bad.append(("deb822/route/object/%s/fields" % on, w, got))
+                continue
+            for dn in ROUTE_DUMPS:
+                if dn == "dump-fd-binary-latin-1" and not l1:
+                    continue
+                if on not in ROUTE_OBJECTS_ALL_DUMPS and dn not in ROUTE_DUMPS_CORE:
+                    continue
+                n += 1
+                try:
+                    out = route_dump(dn, d, tmpdir, enc)
+                except Exception as e:
+                    out = "%s: %s" % (type(e).__name__, e)
+                if out != text:
+                    # the text differs from dump(); say whether a reader of it would also see other fields
+                    try:
+                        same = list(M.Deb822(out).items()) == w
+                    except Exception:
+                        same = False
+                    sig = "deb822/route/dump/%s" % dn if on == "setitem" else "deb822/route/object/%s/dump/%s" % (on, dn)
+                    bad.append((sig + ("/text-only" if same else ""), text, "%r (object made by route %s)" % (out, on)))
+    # (2) entry points and option values that read the document back, over all kinds of input
+    doc = sep.join(texts)
+    for vn, tt in (("plain", doc), ("call", with_comments(doc, "all")))[:1 if light else 2]:
+        lone_comment = vn == "call" and len(sep) > 1
+        fl = route_forms(tt, tmpdir, vn, opened)
+        for fn, mk in fl:
+            if (light or vn == "call") and fn not in ROUTE_FORMS_REDUCED:
+                continue
+            one_shot = fn not in ("str", "bytes")
+            for rn, f, exp in route_parsers(pars, one_shot):
+                if fn not in STANDARD_FORMS and vn == "plain" and not light and not route_is_core(rn):
+                    continue          # the further input kinds go through the core routes only
+                if lone_comment and rn.split("-")[0] in GPG_SCANNING:
+                    continue          # see assumptions(): a comment line alone between two blank lines
+                n += 1
+                try:
+                    got = f(mk)
+                except Exception as e:
+                    got = "%s: %s" % (type(e).__name__, e)
+                if got != exp:
+                    bad.append(("deb822/route/parse/%s/%s/%s" % (rn, vn, fn), exp, "%r from %r" % (got, tt)))
+        if l1:
+            lb = tt.encode("iso-8859-1")
+            for fn, mk in (("bytes", lambda: lb), ("bytesio", lambda: io.BytesIO(lb)), ("bytes-lines-nl", lambda: lb.splitlines(True))):
+                n += 2
+                try:
+                    got = [list(M.Deb822(mk(), encoding="iso-8859-1").items())]
+                    gp = [list(p.items()) for p in M.Deb822.iter_paragraphs(mk(), encoding="iso-8859-1")]
+                except Exception as e:
+                    got = gp = "%s: %s" % (type(e).__name__, e)
+                if got != want[:1]:
+                    bad.append(("deb822/route/parse/ctor-encoding-latin-1/%s/%s" % (vn, fn), want[:1], "%r from %r" % (got, lb)))
+                if gp != want:
+                    bad.append(("deb822/route/parse/iter-encoding-latin-1/%s/%s" % (vn, fn), want, "%r from %r" % (gp, lb)))
+    # (3) how the result is read
+    for i, (par, text, w) in enumerate(zip(pars, texts, want)):
+        try:
+            built = M.Deb822(dict(par))
+            objs = [("parsed", M.Deb822(text)), ("iterated", list(M.Deb822.iter_paragraphs(doc))[i])]
+            if any(list(d.items()) != w for _src, d in objs):
+                continue        # the default route itself is wrong here: reported by the passes that own it
+        except Exception:
+            continue
+        for src, d in objs:
+            for rn in ROUTE_READS:
+                n += 1
+                try:
+                    got = route_read(rn, d, built)
+                except Exception as e:
+                    got = "%s: %s" % (type(e).__name__, e)
+                if got != w:
+                    bad.append(("deb822/route/read/%s" % rn, w, "%r (%s from %r)" % (got, src, text)))
+    # (4) clearsign armor: the other entry points, and armor x comment lines (single paragraphs)
+    if len(pars) == 1:
+        text, w = texts[0], want[0]
+        payload = [l.encode("utf-8") for l in text.split("\n")[:-1]]
+        for hn, hdrs in (ARMOR_HEADERS if armors is None else armors):
+            a = armor(text, hdrs)
+            for fn, mk in forms(a):
+                for cname in ("Deb822", "Dsc", "Changes", "Sources", "BuildInfo"):
+                    cls = getattr(M, cname)
+                    routes = [("iter", lambda: [list(p.items()) for p in cls.iter_paragraphs(mk(), use_apt_pkg=False)], [w]),
+                              ("ctor-strict-ws-false", lambda: [list(cls(mk(), strict={WS: False}).items())], [w]),
+                              ("ctor-keywords", lambda: [list(cls(sequence=mk(), encoding="utf-8").items())], [w]),
+                              ("ctor-then-dump", lambda: cls(mk()).dump(), text)]
+                    if cname in ("Sources", "BuildInfo"):
+                        routes.append(("ctor", lambda: [list(cls(mk()).items())], [w]))
+                    for rn, f, exp in routes:
+                        n += 1
+                        try:
+                            got = f()
+                        except Exception as e:
+                            got = "%s: %s" % (type(e).__name__, e)
+                        if got != exp:
+                            bad.append(("deb822/route/armor-%s/%s/%s/%s" % (hn, rn, fn, cname), exp, "%r from %r" % (got, a)))
+                if fn in ("str", "bytes"):
+                    continue
+                for rn, f in (("split_gpg_and_payload", lambda: M.Deb822.split_gpg_and_payload(iter(mk()))[1]),
+                              ("gpg_stripped_paragraph", lambda: M.Deb822.gpg_stripped_paragraph(iter(mk()))),
+                              ("Dsc.split_gpg_and_payload-strict", lambda: M.Dsc.split_gpg_and_payload(iter(mk()), {WS: False})[1])):
+                    n += 1
+                    try:
+                        got = f()
+                    except Exception as e:
+                        got = "%s: %s" % (type(e).__name__, e)
+                    if got != payload:
+                        bad.append(("deb822/route/armor-%s/%s/%s" % (hn, rn, fn), payload, "%r from %r" % (got, a)))
+            # the statement's configurations are a product: clearsigned AND comment lines interleaved
+            nl = text.count("\n")
+            cvars = [("call", armor(with_comments(text, "all"), hdrs)), ("before-armor", COMMENT + "\n" + a)]
+            cvars += [("c<i>", armor(with_comments(text, i), hdrs)) for i in range(nl + 1)]
+            if light:
+                cvars = []
+            for vn, ac in cvars:
+                for fn, mk in forms(ac):
+                    for cls in (M.Deb822, M.Dsc, M.Changes):
+                        n += 2
+                        try:
+                            got = list(cls(mk()).items())
+                            gp = [list(p.items()) for p in cls.iter_paragraphs(mk())]
+                        except Exception as e:
+                            got = gp = "%s: %s" % (type(e).__name__, e)
+                        if got != w:
+                            bad.append(("deb822/route/armor-%s/comments-%s/ctor/%s/%s" % (hn, vn, fn, cls.__name__), w,
+                                        "%r from %r" % (got, ac)))
+                        elif gp != [w]:
+                            bad.append(("deb822/route/armor-%s/comments-%s/iter/%s/%s" % (hn, vn, fn, cls.__name__), [w],
+                                        "%r from %r" % (gp, ac)))
+    return bad, n
+
+
+def route_values(tier, seed):
+    """values of the one-field paragraphs of the routes pass: every first line x every continuation-line list of length
+    0..1 (quick) / 0..2 (thorough)"""
+    n = 1 if tier == "quick" else 2
+    out = []
+    for f in firsts(seed):
+        for k in range(0, n + 1):
+            for cs in itertools.product(conts(seed), repeat=k):
+                out.append("\n".join((f,) + cs))
+    return out
+
+
+def route_docs(tier, seed):
+    """the documents of the routes pass, simplest first -> [(pars, sep, light)]"""
+    vals = route_values(tier, seed)
+    docs = [([[("A", v)]], "\n") for v in vals]
+    # two fields: all ordered pairs over six value shapes (which of the two fields has an empty first line, continuation
+    # lines, a first line that looks like something else), the two name pairs alternating
+    f, c = firsts(seed), conts(seed)
+    shapes = ["", f[1], f[1] + "\n" + c[0], "\n" + c[0], f[1] + "\n" + c[2] + "\n" + c[0], f[2] + "\n" + c[4]]
+    for i, v in enumerate(shapes):
+        for j, w in enumerate(shapes):
+            docs.append(([[("x1", w), ("a9", v)] if (i + j) % 2 else [("A", v), ("Long-Name", w)]], "\n"))
+    if tier != "quick":
+        n2 = two_field_count("quick", seed)
+        docs += [([p], "\n") for k in range(0, n2, 11) for p in two_field_slice("quick", seed, k, k + 1)]
+    pl = pools("quick", seed)[1][:4] if tier == "quick" else pools("quick", seed)[0][:10]
+    docs += [([p, q], "\n") for p in pl for q in pl]
+    docs += [([p, q], "\n\n") for p in pl[:3] for q in pl[:3]]
+    docs += [([p, q, r], "\n") for p in pl[:2] for q in pl[:2] for r in pl[:2]]
+    docs = [(pars, sep, False) for pars, sep in docs]
+    docs += [([p], "\n", True) for p in sweep_pars() if p[0][0] != "A"]      # the field-name sweeps
+    return docs
+
+
+ROUTE_CHUNK = 16
 
 
 def two_field_pars(tier, seed):
@@ -482,6 +1090,8 @@ def units(tier, seed):
     out += [{"kind": "sweep", "lo": i, "hi": min(ns, i + SWEEP_CHUNK)} for i in range(0, ns, SWEEP_CHUNK)]
     out += [{"kind": "long", "L": L} for L in long_lengths(tier)]
     out += [{"kind": "blank", "lead": lead} for lead in blank_seqs(0, 2)]
+    nr = len(route_docs(tier, seed))
+    out += [{"kind": "routes", "lo": i, "hi": min(nr, i + ROUTE_CHUNK)} for i in range(0, nr, ROUTE_CHUNK)]
     p2, p3 = pools(tier, seed)
     out += [{"kind": "multi2", "a": i} for i in range(len(p2))]
     out += [{"kind": "multi3", "a": i} for i in range(len(p3))]
@@ -495,6 +1105,8 @@ def unit_cost(u, tier):
         return 14
     if u["kind"] == "blank":
         return 2
+    if u["kind"] == "routes":
+        return 6
     return {"single1": 30, "single1-deep": 14, "single2": 10, "sweep": 1, "multi2": 2, "multi3": 3}[u["kind"]]
 
 
@@ -559,6 +1171,24 @@ def run_unit(u, tier, seed):
                 part.outcomes["blank-lines/%d-paragraphs/%d-leading/separators<=%d" % (
                     len(pars), len(lead), max([len(x) for x in ss] or [0]))] += 1
         part.sample({"kind": "blank", "lead": lead, "pars": docs[len(docs) // 2][0], "seps": docs[len(docs) // 2][1]})
+    elif u["kind"] == "routes":
+        docs = route_docs(tier, seed)[u["lo"]:u["hi"]]
+        arm = ARMOR_HEADERS[:1] if tier == "quick" else None
+        for pars, sep, light in docs:
+            case = {"kind": "routes", "pars": pars, "sep": sep, "one_armor": tier == "quick", "light": light}
+            bad, n = check_routes(pars, sep, arm, light)
+            part.states += 1
+            part.transitions += n
+            part.traces += n
+            part.evaluations += n
+            part.nontrivial += 1
+            for sig, exp, obs in bad:
+                part.violation(sig, case, exp, obs, rank=500 * len(pars) + sum(len(k) + len(v) for p in pars for k, v in p))
+            if not bad:
+                part.outcomes["routes%s/%d-paragraphs/%d-fields/%d-cont" % (
+                    "-sweep" if light else "", len(pars), min(3, sum(len(p) for p in pars)), min(3, sum(v.count("\n") for p in pars for _k, v in p)))] += 1
+            part.extra["route executions"] += n
+        part.sample(dict(case, pars=docs[0][0], sep=docs[0][1], light=docs[0][2]))
     elif u["kind"] == "long":
         one = tier == "quick"
         cases = [{"kind": "long", "spec": spec, "seed": seed, "one_armor": one} for spec in long_specs(u["L"], tier)]
@@ -605,6 +1235,9 @@ def replay(case):
         return run_long(case)[0]
     if case["kind"] == "single":
         return check_single([tuple(x) for x in case["par"]], case["full"])[0]
+    if case["kind"] == "routes":
+        return check_routes([[tuple(x) for x in p] for p in case["pars"]], case["sep"],
+                            ARMOR_HEADERS[:1] if case.get("one_armor") else None, bool(case.get("light")))[0]
     if case["kind"] == "blank":
         return check_blank(case["lead"], [[tuple(x) for x in p] for p in case["pars"]], case["seps"])[0]
     return check_multi([[tuple(x) for x in p] for p in case["pars"]], case["sep"])[0]
